@@ -97,6 +97,7 @@ type history struct {
 	extra    []staking.Address // fresh and reserved destinations
 	proposal uint64            // number of proposals submitted so far
 	// the harness's own bookkeeping of WHO must be slashed / rewarded (not read from events)
+	victim   int            // repeated-slash regime: index of the validator that is slashed again and again (-1: none)
 	mock     bool           // MockEpochs history: epochs advance (and jump) only through SetEpoch transactions
 	frozen   map[int]bool   // validators frozen by an earlier slash (no unfreeze transactions are generated)
 	sigTotal uint64         // blocks counted in the current signing period (EpochSigning.Total)
@@ -136,9 +137,42 @@ func newHistory(seed uint64, run int, sum *coqout.Summary, w *coqout.Writer) (*h
 		debInt = uint64(1 + gr.Intn(4))
 	}
 	genesisDebonding := gr.Chance(50)
+	// repeated-slash regime: no freeze after a slash, one victim entity is slashed again and
+	// again with a fixed penalty that is large relative to (or larger than) its whole escrow, so
+	// that the pro-rata amounts exceed what is left (MoveUpTo's cap in slashPool)
+	slashVariant := []string{"default", "default", "default", "third-of-escrow", "most-of-escrow", "double-escrow", "2^64-1", "double-escrow"}[gr.Intn(8)]
+	victimLowest := gr.Chance(50) // the lowest-address escrow account also holds the genesis debonding delegations
+	var victimAddr staking.Address
 	g, err := muxdrv.NewGenesis(seed*131+uint64(run), muxdrv.GenesisOpts{
 		Validators: 4, Accounts: 10, EpochInterval: 4, DebondingInterval: debInt, MockEpochs: h.mock,
 		Mutate: func(doc *genesis.Document) {
+			if slashVariant != "default" {
+				var esc []staking.Address
+				for a, acc := range doc.Staking.Ledger {
+					if !acc.Escrow.Active.Balance.IsZero() {
+						esc = append(esc, a)
+					}
+				}
+				sort.Slice(esc, func(i, j int) bool { return bytes.Compare(esc[i][:], esc[j][:]) < 0 })
+				victimAddr = esc[len(esc)-1]
+				if victimLowest {
+					victimAddr = esc[0]
+				}
+				b := doc.Staking.Ledger[victimAddr].Escrow.Active.Balance.ToBigInt()
+				amt := new(big.Int)
+				switch slashVariant {
+				case "third-of-escrow":
+					amt.Div(b, big.NewInt(3))
+				case "most-of-escrow":
+					amt.Mul(b, big.NewInt(4))
+					amt.Div(amt, big.NewInt(5))
+				case "double-escrow":
+					amt.Mul(b, big.NewInt(2))
+				case "2^64-1":
+					amt.Set(two64m1)
+				}
+				doc.Staking.Parameters.Slashing[staking.SlashConsensusEquivocation] = staking.Slash{Amount: qty(amt), FreezeInterval: 0}
+			}
 			if genesisDebonding {
 				// debonding delegations that are already expired or expire soon (end epochs 0..5, base
 				// epoch 1), into the escrow account with the smallest address, pool price below 1
@@ -243,6 +277,15 @@ func newHistory(seed uint64, run int, sum *coqout.Summary, w *coqout.Writer) (*h
 	sum.Count("genesis_min_transact_balance", fmt.Sprint(minTransact))
 	sum.Count("genesis_common_pool", poolVariant)
 	sum.Count("genesis_epochs", map[bool]string{true: "mock (set-epoch transactions, jumps)", false: "insecure beacon (every 4 blocks)"}[h.mock])
+	sum.Count("genesis_slashing", slashVariant)
+	h.victim = -1
+	if slashVariant != "default" {
+		for _, v := range g.Validators {
+			if v.Entity.Address() == victimAddr {
+				h.victim = v.Index
+			}
+		}
+	}
 	sum.Count("genesis_debonding_delegations", map[bool]string{true: "6 entries, end epochs 0..5, price 0.9", false: "none"}[genesisDebonding])
 	sum.Count("genesis_reward_factor_proposed", fmt.Sprint(factorProp))
 	sum.Count("genesis_debonding_interval", fmt.Sprint(uint64(g.Doc.Staking.Parameters.DebondingInterval)))
@@ -996,6 +1039,9 @@ func (h *history) block(blockNo int, total int) (*blockOut, error) {
 	if height > 24 {
 		evPct = 1 // slashing freezes validators and soon leaves none electable (the chain halts); keep long histories alive
 	}
+	if h.victim >= 0 {
+		evPct = 15 // no freezing in this regime; only the victim loses its stake
+	}
 	// mock backend: below the base epoch there is no random beacon yet and a slash-triggered
 	// re-election cannot run (debug-backend artefact): no evidence before the first transition
 	if height > 3 && r.Chance(evPct) && os.Getenv("LEDGER_NOEVIDENCE") == "" && pre.dump.Epoch >= uint64(h.g.Doc.Beacon.Base) {
@@ -1008,6 +1054,31 @@ func (h *history) block(blockNo int, total int) (*blockOut, error) {
 					tv = cv
 					h.sum.Count("evidence", "against-entity-with-debonding-stake")
 					break
+				}
+			}
+		}
+		if h.victim >= 0 {
+			// the same entity again, whether or not it still is in the validator set
+			vv := h.g.Validators[h.victim]
+			tv = muxdrv.Val{Address: vv.ConsAddr, Power: 1}
+			for _, cv := range pv {
+				if bytes.Equal(cv.Address, vv.ConsAddr) {
+					tv = cv
+				}
+			}
+			if a, ok := pre.accts[vv.Entity.Address().String()]; ok {
+				sl := pre.params.Slashing[staking.SlashConsensusEquivocation]
+				tot := new(big.Int).Add(bi(a.Active.Balance), bi(a.Debonding.Balance))
+				switch {
+				case tot.Sign() == 0:
+					h.sum.Count("evidence", "repeat-victim: escrow already empty")
+				case sl.Amount.ToBigInt().Cmp(tot) > 0:
+					h.sum.Count("evidence", "repeat-victim: penalty > active+debonding (capped)")
+				default:
+					h.sum.Count("evidence", "repeat-victim: penalty <= active+debonding")
+				}
+				if a.Debonding.Balance != "0" && a.Active.Balance != "0" {
+					h.sum.Count("evidence", "repeat-victim: both pools non-empty")
 				}
 			}
 		}
